@@ -592,13 +592,42 @@ def generate(seed, tier):
     return cases
 
 
+GRAPH_MUTATORS = {"createNode", "createNodeFromNode", "createNodeOnEdge", "createNodeFromEdge", "link", "linkE", "unlink",
+                  "switchNodes", "deleteNode", "makeDirected", "makeUndirected", "setRoot", "orientate", "gassign"}
+COPY_OPS = {"o.copy", "o.clone", "o.copyvia", "o.assign"}
+
+
 def coverage_extra(cases, answers):
-    """distribution of what was generated: lengths, nodes alive at the end, directedness"""
+    """distribution of what was generated: lengths, directedness, and in which states the graph-level
+    mutators and the copies were exercised"""
     lens = {}
     und = 0
+    with_obs = {}        # graph-level mutator -> executions on a graph on which some observer holds an edge object
+    with_copies = {}     # ... while two or more observers exist
+    copies = {}          # kind of copy -> executions / of a source holding an indexed edge object
     for c in cases:
         n = len(c) - 1
         b = "%d-%d" % (n // 10 * 10, n // 10 * 10 + 9)
         lens[b] = lens.get(b, 0) + 1
         und += c[0].endswith("undir")
-    return {"history_length_histogram": lens, "undirected_cases": und, "directed_cases": len(cases) - und}
+        eobj = False; eidx = False; nobs = 1
+        for l in c[1:]:
+            t = l.split()
+            o = t[0]
+            if o in ("o.link", "o.createNodeFrom") and t[-1] != "-":
+                eobj = True
+            elif o in ("o.addEdgeIndex", "o.setEdgeIndex"):
+                eidx = True
+            elif o in COPY_OPS or o == "o.attach":
+                nobs += 1
+                if o in COPY_OPS:
+                    k = copies.setdefault(o, [0, 0]); k[0] += 1; k[1] += eobj and eidx
+            elif o in GRAPH_MUTATORS:
+                if eobj:
+                    with_obs[o] = with_obs.get(o, 0) + 1
+                    if nobs > 1:
+                        with_copies[o] = with_copies.get(o, 0) + 1
+    return {"history_length_histogram": lens, "undirected_cases": und, "directed_cases": len(cases) - und,
+            "graph_mutators_after_an_edge_object_was_linked": with_obs,
+            "graph_mutators_with_edge_objects_and_several_observers": with_copies,
+            "copies_total_and_after_indexed_edge_object": copies}
